@@ -473,6 +473,41 @@ def p_bundle( ctx ):
         else:
             res.bad( src, keep[0], t, 'operations with a different %s must not be merged into one Multiple Service Packet' % p )
     PATHS = BM.name( '_paths' ) or 'requests_paths'
+    # the size of a bundle is that of ALL its members: the operation that opens a new bundle after a flush counts like any other.  By value:
+    # the accumulators after the flush branch = what a fresh bundle starts with ( the stores ahead of the loop ) + this operation's estimates
+    accs = [ ( a_.target.id, a_.value ) for a_ in keep[0].body if isinstance( a_, ast.AugAssign ) and isinstance( a_.op, ast.Add ) and isinstance( a_.target, ast.Name ) ]
+    if len( accs ) < 2:
+        raise AnalysisError( 'connector.issue: the size accumulators of a bundle ( <acc> += <estimate> ) not found' )
+    probe = {}
+    prime = iter(( 101, 211, 7, 13, 307, 401, 17, 19, 503, 23 ))
+    for n_ in sorted( { n for _, v_ in accs for n in names_in( v_ ) } | { n for a_ in ast.walk( fn ) if isinstance( a_, ast.Assign ) and any( isinstance( t_, ast.Name ) and t_.id in dict( accs ) for t_ in a_.targets ) for n in names_in( a_.value ) } ):
+        probe[n_] = next( prime )
+    init = {}
+    for a_ in fn.body:
+        if isinstance( a_, ast.Assign ) and any( isinstance( t_, ast.Name ) and t_.id in dict( accs ) for t_ in a_.targets ) and a_.lineno < loop[0].lineno:
+            v_ = try_fold( a_.value, probe, default=None )
+            for t_ in a_.targets:
+                if isinstance( t_, ast.Name ):
+                    init[t_.id] = v_
+                    if t_.id not in dict( accs ):
+                        probe[t_.id] = v_ if v_ is not None else probe.get( t_.id )
+    wrong = []
+    for acc, est in accs:
+        env = dict( probe ); env.update(( k_, v_ ) for k_, v_ in init.items() if v_ is not None )
+        start = init.get( acc )
+        after = [ a_ for a_ in ast.walk( keep[0] ) if isinstance( a_, ast.Assign ) and any( isinstance( t_, ast.Name ) and t_.id == acc for t_ in a_.targets )
+                  and any( a_ is x for o_ in keep[0].orelse for x in ast.walk( o_ )) ]
+        e_ = try_fold( est, env, default=None )
+        got = try_fold( after[-1].value, env, default=None ) if after else None
+        if start is None or e_ is None or got is None:
+            raise AnalysisError( 'connector.issue: the size accounting of a bundle is outside the modelled subset ( %s )' % acc )
+        if got != start + e_:
+            wrong.append(( acc, norm_text( est ), after[-1] ))
+    if wrong:
+        res.bad( src, wrong[0][2], 'connector.issue: after a flush `%s` restarts at `%s`: the operation that opens the new bundle ( estimate %s ) is not counted' % ( wrong[0][0], norm_text( wrong[0][2].value ), wrong[0][1] ),
+                 'every bundle after the first holds one operation more than the limit allows: its reply exceeds what the connection carries and the whole bundle fails ( or an operation whose estimate is the limit itself - "prevent merging" - is merged ): results depend on `multiple`' )
+    else:
+        res.ok( src, keep[0], 'the size of a bundle counts all its members, the one that opens it after a flush included ( %s )' % ', '.join( a for a, _ in accs ))
     size = [ v for v in t.values if 'multiple' in names_in( v ) ]
     SM = Matcher()
     if size and SM.m( size[0], 'not _requests or max( _a + _b, _c + _d ) < multiple' ):
@@ -1895,4 +1930,27 @@ def t_fragtext( ctx ):
                     res.ok( s2, c, '%s: parse_operations parses the texts the same way whatever --fragment says' % rel )
     if n < 4:
         raise AnalysisError( 'callers of parse_operations not found ( %d )' % n )
+    return res
+
+
+@rule( 'P-PARAMS', props=( 'C13', ), floor=1 )
+def p_params( ctx ):
+    """poll.execute pairs each parameter with its value by walking the parameters TWICE - once to build the operations, once beside the
+    results: the sequence it is given is reified ( list / tuple ) before the first walk.  Walked twice as it comes, a generator is shared by
+    both walks: every other parameter goes to the operations, the rest is zipped beside their results - A[0] is reported with B[0]'s value."""
+    res = Result( 'P-PARAMS' )
+    src = ctx.src( POLL )
+    fn = src.get( 'execute' )
+    P = fn.args.args[1].arg
+    uses = [ n for n in ast.walk( fn ) if isinstance( n, ast.Name ) and n.id == P and isinstance( n.ctx, ast.Load ) ]
+    reified = [ a for a in fn.body if isinstance( a, ast.Assign ) and any( isinstance( t, ast.Name ) and t.id == P for t in a.targets )
+                and isinstance( a.value, ast.Call ) and call_name( a.value ) in ( 'list', 'tuple', 'sorted' ) ]
+    walked = [ n for n in uses if not any( n in ast.walk( a ) for a in reified ) ]
+    if len( walked ) < 2:
+        res.ok( src, fn, 'poll.execute walks its parameters once' )
+    elif reified and all( n.lineno > reified[0].lineno for n in walked ):
+        res.ok( src, reified[0], 'poll.execute reifies its parameters ( %s ) before walking them %d times' % ( norm_text( reified[0].value ), len( walked )))
+    else:
+        res.bad( src, walked[1], 'poll.execute walks `%s` %d times as it was given' % ( P, len( walked )),
+                 'a generator of parameters is consumed by both walks at once: half the parameters are read, and each is reported with the value of ANOTHER parameter - no error is raised' )
     return res
